@@ -319,6 +319,14 @@ func (s *Spec) Ops(st *explore.State) []explore.Op {
 			continue
 		}
 		other := other
+		// the first event of that chain is voted in by a transaction that is then thrown away (it failed later on, or
+		// it was only simulated): nothing has been observed as far as the chain is concerned
+		ops = append(ops, explore.Op{Name: "FirstObservationDiscarded(" + other + ")", Run: func(c *explore.State) {
+			d := world.Branch(c.Ctx)
+			r := scen.Vote(s.w, d, other, s.os[other][0], scen.BridgeTokenClaim(other, 1, 5000, scen.ExtAddr(other, other+"-fx-token"), "Function X", "FX", 18, ""))
+			ok(c, r.OK())
+			c.Outcome = "discarded"
+		}})
 		ops = append(ops, explore.Op{Name: "BridgeCallOutUnobserved(" + other + ")", Run: func(c *explore.State) {
 			r := s.w.Deliver(c.Ctx, &cctypes.MsgBridgeCall{ChainName: other, Sender: u1.Bech(), To: scen.ExtAddr(other, "callee"), Data: "01", Value: sdkmath.ZeroInt()})
 			ok(c, r.OK())
